@@ -537,6 +537,15 @@ def nexus_doc(rng, hostile=True, nl="\n", force=None, with_chars=False, allow_mu
             if hostile and rng.random() < 0.2:
                 pre = rng.choice(["[before tree statement] ", "[&pre=1] "])
                 feats.add("comment-before-TREE")
+            if hostile and rng.random() < 0.1:
+                # a command the readers skip, inside the TREES block (between TREE statements when t > 0): the parser leaves
+                # and re-enters its TREE branch, comments around it must still end up where every other route puts them
+                # (seeded change C13d)
+                s += "  %s%s source = run%d;%s" % (rng.choice(["", "[skipped command follows] "]), kw(rng, "PROPERTIES"), t, nl)
+                feats.add("skipped-command-inside-TREES")
+                if rng.random() < 0.7:
+                    pre = rng.choice(["[after a skipped command] ", "[&burnin=true] [note] ", "[&pre=2] "])
+                    feats.add("comment-before-TREE")
             name = rng.choice(["t%d" % t, "tree_%d_%d" % (b, t), "'tree %d'" % t, "PAUP_%d" % t, "%d" % (t + 1), "rep.%d" % t])
             star = "* " if rng.random() < 0.15 else ""
             mid = " [named] " if hostile and rng.random() < 0.1 else " "
